@@ -1428,6 +1428,11 @@ class Session(AbstractSession):
                 right_data = val.array_from_parameter(self, "right_on", right_on)
                 has_unmapped = ops.generate_ordered_map_to_left_both_unique(
                     left_data, right_data, result, ops.INVALID_INDEX)
+                if streamable:
+                    # the streaming mapper reads the map from a field
+                    map_field = val.field_from_parameter(self, 'left_to_right_map', left_to_right_map)
+                    map_field.data.write(result)
+                    result = map_field
 
         if streamable:
             self._streaming_map_fields(result, right_field_sources, left_field_sinks,
